@@ -514,20 +514,20 @@ def pack_text(t):
     return out
 
 
-def parse_mismatches(out):
-    """`M = Some [..]` / `M = None` printed by Coq"""
+def parse_mismatches(out, expect_cases):
+    """`M = Some (n, [..])` / `M = None` printed by Coq; the count of decoded cases must be the count sent"""
     import re
-    m = re.search(r"M\s*=\s*Some\s*\[(.*?)\]", out, re.S)
-    if not m:
+    m = re.search(r"M\s*=\s*Some\s*\(\s*(\d+)(?:%nat)?\s*,\s*\[(.*?)\]\s*\)", out, re.S)
+    if not m or int(m.group(1)) != expect_cases:
         return None
-    body = m.group(1).strip()
+    body = m.group(2).strip()
     if not body:
         return []
     return [int(x.replace("%nat", "").strip()) for x in body.split(";")]
 
 
 def run(ck):
-    n = 300 if not ck.thorough else 3000
+    n = 300 if not ck.thorough else 10000
     big = 70000 if not ck.thorough else 200 * 1024
     ck.gen()
     built = ck.coq_make(MODEL + PROOFS, clean=ck.thorough)
@@ -629,7 +629,7 @@ def run(ck):
             txt = (HEADER + "Definition M := Eval vm_compute in mismatches_ints [\n"
                    + ";\n".join(";".join(ints[k:k + 8]) for k in range(0, len(ints), 8)) + "\n].\nPrint M.\n")
             rc, out = ck.coq_eval("cases_%d" % s, txt)
-            return s, (parse_mismatches(out) if rc == 0 else None), out
+            return s, (parse_mismatches(out, len(ts)) if rc == 0 else None), out
 
         mism = []
         with ThreadPoolExecutor(max_workers=12) as ex:
